@@ -46,6 +46,11 @@ sys.__stdout__.write(json.dumps(out))
 """
 
 
+def session_defaults():
+    from . import session
+    return {k: v for k, v in session.DEFAULT_KNOBS.items() if v is not None}
+
+
 class FreshProcessError(Exception):
     """the child interpreter itself failed (harness error, not a verdict)"""
 
@@ -55,7 +60,7 @@ def run_cycle(argv, trigger, knobs, hash_seed, timeout=300):
     code = _CHILD % {"here": HERE, "root": root, "code": scratch.code_dir(), "wroot": scratch.worker_root()}
     env = dict(os.environ, PYTHONHASHSEED=str(hash_seed), PYTHONUTF8="1")
     p = subprocess.run([sys.executable, "-W", "ignore", "-c", code], input=json.dumps(
-        {"argv": list(argv), "trigger": list(trigger) if trigger else None, "knobs": knobs or {}}),
+        {"argv": list(argv), "trigger": list(trigger) if trigger else None, "knobs": dict(session_defaults(), **(knobs or {}))}),
         capture_output=True, text=True, env=env, timeout=timeout)
     if p.returncode != 0 or not p.stdout.startswith("{"):
         raise FreshProcessError("child interpreter failed (rc %s): %s" % (p.returncode, p.stderr[-1500:]))
